@@ -6,6 +6,7 @@ here=$(dirname "$(dirname "$(readlink -f "$0")")")
 name=$1; workers=${2:-16}; shift 2 2>/dev/null
 tmp=$(mktemp -d /tmp/vfvariant_XXXXXX)
 git -C /repo archive HEAD | tar -x -C "$tmp"
-(cd "$tmp" && patch -p0 -s < "$here/variants/$name/patch.diff") || { echo "variant $name does not apply to /repo HEAD"; rm -rf "$tmp"; exit 2; }
+base=$(cat "$here/variants/$name/BASE" 2>/dev/null)
+(cd "$tmp" && patch -p0 -s < "$here/variants/$name/patch.diff") || { echo "variant $name does not apply to /repo HEAD (it was written against /repo $base: later repairs touch the same lines; the checks of today would report the defects repaired since then on that older tree, so it cannot be replayed there either)"; rm -rf "$tmp"; exit 2; }
 "$here/tools/refactor_eval.sh" "$tmp" "$workers" "$@"
 rm -rf "$tmp"
